@@ -15,7 +15,6 @@ type Solver struct {
 	kind   string // "z3", "z3-new", "cvc5"
 	cmd    *exec.Cmd
 	in     io.WriteCloser
-	out    *bufio.Reader
 	store  *TermStore
 	def    []map[int]bool // per scope: defined term ids
 	decl   []map[string]bool
@@ -23,6 +22,9 @@ type Solver struct {
 	stats  *SolverStats
 	log    io.Writer
 	timeoutMs int
+	lines  chan string
+	live   [][]string // per scope: state-changing commands sent (for restart after a hard timeout)
+	Restarts int
 }
 
 type SolverStats struct {
@@ -35,32 +37,58 @@ type SolverStats struct {
 }
 
 func NewSolver(kind string, store *TermStore, timeoutMs int, stats *SolverStats) (*Solver, error) {
+	s := &Solver{kind: kind, store: store, stats: stats, timeoutMs: timeoutMs}
+	if err := s.start(); err != nil {
+		return nil, err
+	}
+	s.Reset()
+	return s, nil
+}
+
+func (s *Solver) start() error {
 	var cmd *exec.Cmd
-	switch kind {
+	timeoutMs := s.timeoutMs
+	switch s.kind {
 	case "z3":
 		cmd = exec.Command("/usr/bin/z3", "-in", "-smt2", fmt.Sprintf("-t:%d", timeoutMs))
 	case "z3-new":
 		cmd = exec.Command("z3-new", "-in", "-smt2", fmt.Sprintf("-t:%d", timeoutMs))
 	case "cvc5":
 		cmd = exec.Command("cvc5", "--incremental", "--lang=smt2", fmt.Sprintf("--tlimit-per=%d", timeoutMs), "--produce-models")
+	case "cvc5-int":
+		cmd = exec.Command("cvc5", "--incremental", "--lang=smt2", fmt.Sprintf("--tlimit-per=%d", timeoutMs), "--produce-models", "--solve-bv-as-int=sum")
 	default:
-		return nil, fmt.Errorf("unknown solver %s", kind)
+		return fmt.Errorf("unknown solver %s", s.kind)
 	}
 	in, err := cmd.StdinPipe()
 	if err != nil {
-		return nil, err
+		return err
 	}
 	out, err := cmd.StdoutPipe()
 	if err != nil {
-		return nil, err
+		return err
 	}
 	cmd.Stderr = cmd.Stdout
 	if err := cmd.Start(); err != nil {
-		return nil, err
+		return err
 	}
-	s := &Solver{kind: kind, cmd: cmd, in: in, out: bufio.NewReaderSize(out, 1<<20), store: store, stats: stats, timeoutMs: timeoutMs}
-	s.Reset()
-	return s, nil
+	s.cmd, s.in = cmd, in
+	lines := make(chan string, 1024)
+	s.lines = lines
+	go func() {
+		rd := bufio.NewReaderSize(out, 1<<20)
+		for {
+			line, err := rd.ReadString('\n')
+			if line != "" {
+				lines <- line
+			}
+			if err != nil {
+				close(lines)
+				return
+			}
+		}
+	}()
+	return nil
 }
 
 func (s *Solver) Close() {
@@ -81,47 +109,102 @@ func (s *Solver) send(str string) {
 }
 
 // roundtrip sends text then a marker echo and returns the lines printed before the marker.
+// If the solver does not answer within the hard deadline it is killed and restarted with the
+// live assertion stack re-sent; the answer is then an (error ...) line (=> unknown).
 func (s *Solver) roundtrip(str string) []string {
 	s.marker++
 	m := fmt.Sprintf("<<%d>>", s.marker)
 	s.send(str)
 	s.send(fmt.Sprintf("(echo \"%s\")\n", m))
 	var lines []string
+	deadline := time.After(time.Duration(s.timeoutMs)*time.Millisecond*3/2 + 10*time.Second)
 	for {
-		line, err := s.out.ReadString('\n')
-		if err != nil {
-			lines = append(lines, "(error \"solver died: "+err.Error()+"\")")
+		select {
+		case line, ok := <-s.lines:
+			if !ok {
+				lines = append(lines, "(error \"solver died\")")
+				s.restart()
+				return lines
+			}
+			line = strings.TrimSpace(line)
+			if line == m || line == "\""+m+"\"" {
+				return lines
+			}
+			if line != "" {
+				lines = append(lines, line)
+			}
+		case <-deadline:
+			lines = append(lines, "(error \"hard timeout\")")
+			s.restart()
 			return lines
-		}
-		line = strings.TrimSpace(line)
-		if line == m || line == "\""+m+"\"" {
-			return lines
-		}
-		if line != "" {
-			lines = append(lines, line)
 		}
 	}
+}
+
+func (s *Solver) restart() {
+	s.Restarts++
+	if s.cmd != nil {
+		s.in.Close()
+		s.cmd.Process.Kill()
+		s.cmd.Wait()
+	}
+	if err := s.start(); err != nil {
+		panic("cannot restart solver: " + err.Error())
+	}
+	var sb strings.Builder
+	sb.WriteString(s.preamble())
+	for i, sc := range s.live {
+		if i > 0 {
+			sb.WriteString("(push 1)\n")
+		}
+		for _, c := range sc {
+			sb.WriteString(c)
+		}
+	}
+	s.marker++
+	m := fmt.Sprintf("<<%d>>", s.marker)
+	io.WriteString(s.in, sb.String())
+	io.WriteString(s.in, fmt.Sprintf("(echo \"%s\")\n", m))
+	for line := range s.lines {
+		line = strings.TrimSpace(line)
+		if line == m || line == "\""+m+"\"" {
+			break
+		}
+	}
+}
+
+// emit sends a state-changing command and records it for restarts.
+func (s *Solver) emit(str string) {
+	s.live[len(s.live)-1] = append(s.live[len(s.live)-1], str)
+	s.send(str)
+}
+
+func (s *Solver) preamble() string {
+	pre := "(reset)\n(set-option :print-success false)\n(set-option :produce-models true)\n"
+	if s.kind == "cvc5" || s.kind == "cvc5-int" {
+		pre = "(reset)\n(set-option :print-success false)\n(set-option :produce-models true)\n(set-option :incremental true)\n(set-logic ALL)\n"
+	}
+	return pre
 }
 
 func (s *Solver) Reset() {
 	s.def = []map[int]bool{{}}
 	s.decl = []map[string]bool{{}}
-	pre := "(reset)\n(set-option :print-success false)\n(set-option :produce-models true)\n"
-	if s.kind == "cvc5" {
-		pre = "(reset)\n(set-option :print-success false)\n(set-option :produce-models true)\n(set-option :incremental true)\n(set-logic ALL)\n"
-	}
-	s.roundtrip(pre)
+	s.live = [][]string{nil}
+	s.roundtrip(s.preamble())
 }
 
 func (s *Solver) Push() {
 	s.def = append(s.def, map[int]bool{})
 	s.decl = append(s.decl, map[string]bool{})
+	s.live = append(s.live, nil)
 	s.send("(push 1)\n")
 }
 
 func (s *Solver) Pop() {
 	s.def = s.def[:len(s.def)-1]
 	s.decl = s.decl[:len(s.decl)-1]
+	s.live = s.live[:len(s.live)-1]
 	s.send("(pop 1)\n")
 }
 
@@ -153,6 +236,10 @@ func (s *Solver) ref(t *Term, sb *strings.Builder) string {
 		if !s.isDecl("v:" + t.name) {
 			s.decl[len(s.decl)-1]["v:"+t.name] = true
 			fmt.Fprintf(sb, "(declare-const %s %s)\n", n, sortStr(t.w))
+			if ax, ok := s.store.axioms[t.id]; ok {
+				r := s.ref(ax, sb)
+				fmt.Fprintf(sb, "(assert %s)\n", r)
+			}
 		}
 		return n
 	}
@@ -166,6 +253,7 @@ func (s *Solver) ref(t *Term, sb *strings.Builder) string {
 		i int
 	}
 	stack := []fr{{t, 0}}
+	var pendingAx []*Term
 	for len(stack) > 0 {
 		f := &stack[len(stack)-1]
 		if f.i < len(f.t.args) {
@@ -222,6 +310,13 @@ func (s *Solver) ref(t *Term, sb *strings.Builder) string {
 			body = fmt.Sprintf("(%s %s)", opNames[n.op], strings.Join(args, " "))
 		}
 		fmt.Fprintf(sb, "(define-fun t%d () %s %s)\n", n.id, sortStr(n.w), body)
+		if ax, ok := s.store.axioms[n.id]; ok {
+			pendingAx = append(pendingAx, ax)
+		}
+	}
+	for _, ax := range pendingAx {
+		r := s.ref(ax, sb)
+		fmt.Fprintf(sb, "(assert %s)\n", r)
 	}
 	return name
 }
@@ -233,7 +328,7 @@ func (s *Solver) Assert(t *Term) {
 	var sb strings.Builder
 	r := s.ref(t, &sb)
 	fmt.Fprintf(&sb, "(assert %s)\n", r)
-	s.send(sb.String())
+	s.emit(sb.String())
 }
 
 type Result int
@@ -309,8 +404,10 @@ func (s *Solver) GetValues(vars []*Term) (map[string]*big.Int, error) {
 		for _, v := range vars[i:j] {
 			names = append(names, s.ref(v, &sb))
 		}
-		fmt.Fprintf(&sb, "(get-value (%s))\n", strings.Join(names, " "))
-		lines := s.roundtrip(sb.String())
+		if sb.Len() > 0 {
+			s.emit(sb.String())
+		}
+		lines := s.roundtrip(fmt.Sprintf("(get-value (%s))\n", strings.Join(names, " ")))
 		txt := strings.Join(lines, " ")
 		if strings.Contains(txt, "(error") {
 			return nil, fmt.Errorf("get-value: %s", txt)
